@@ -48,6 +48,13 @@ static void srcs_load(void) {
       for (int i = 0; i < 300; i += 7) buf_printf(&b, "    set acc (+ acc (f%d %d))\n", i, i);
       buf_printf(&b, "    (println (int_to_string acc))\n    return 0\n}\nshadow main { assert (== (main) 0) }\n"); buf_put(&b, "", 1);
       s = &srcs[nsrcs++]; memset(s, 0, sizeof *s); strcpy(s->name, "gen_big300"); s->text = (char *)b.d; }
+    /* one cond expression with more clauses than any fixed-size table of pending jumps in the compiler */
+    { Buf b = {0};
+      buf_printf(&b, "fn code_point(k: int) -> int {\n    return (cond\n");
+      for (int i = 0; i < 70; i++) buf_printf(&b, "        ((== k %d) %d)\n", i, 1000 + 7 * i);
+      buf_printf(&b, "        (else (- 0 1))\n    )\n}\nshadow code_point { assert (== (code_point 0) 1000) }\nfn main() -> int {\n    (println (code_point 5))\n    (println (code_point 40))\n    return 0\n}\nshadow main { assert (== 1 1) }\n");
+      buf_put(&b, "", 1);
+      s = &srcs[nsrcs++]; memset(s, 0, sizeof *s); strcpy(s->name, "gen_cond70"); s->text = (char *)b.d; }
     /* typed random programs of the heap family's generator: structs, unions, tuples, closures, maps, nested arrays */
     for (int k = 0; k < 16 && nsrcs < 150; k++) {
         Buf b = {0}; heap_gen_program((uint64_t)k * 7919 + 3, &b); buf_put(&b, "", 1);
@@ -182,6 +189,8 @@ static void compile_once(EPlan *P, Cfg *c, uint64_t seed, Outs *o) {
     snprintf(kv, sizeof kv, "PATH=/usr/bin:/bin:/opt/%d", c->envnoise); sim_env_set(p, kv);
     for (int i = 0; i < c->envnoise; i++) { snprintf(kv, sizeof kv, "NOISE_%d_%d=%0*d", i, c->pid % 97, 1 + (i * 7) % 60, i); sim_env_set(p, kv); }
     if (c->envnoise % 3 == 1) sim_env_set(p, "LANG=de_DE.UTF-8");
+    /* an installed locale with a decimal comma, selected the three ways a user can select it */
+    if (c->envnoise % 4 == 3) sim_env_set(p, c->envnoise % 8 == 3 ? "LC_NUMERIC=xx_XX" : c->envnoise % 16 == 7 ? "LC_ALL=xx_XX" : "LANG=xx_XX");
     if (c->envnoise % 5 == 2) sim_env_set(p, "NANO_VERBOSE_BUILD_UNRELATED=1");
     int rc = sim_run();
     o->finished = rc == 0 && !p->alive; o->status = p->status;
